@@ -163,9 +163,7 @@ DOTS = {'.', '%2e', '%2E', '..', '.%2e', '.%2E', '%2e.', '%2E.', '%2e%2e', '%2e%
 def ref_allow(a):
     d = ref_parse(a)
     if d is None: return None
-    t = ws_strip(a)
-    while t.endswith('.git'): t = t[:-4]
-    if '?' in t or '#' in t or d['port'] is not None: return None
+    if any(ch in d['host'] + d['path'] for ch in '?#') or d['port'] is not None: return None
     if d['form'] == 2:
         ok = d['userinfo'] is None
     elif d['form'] == 1:
@@ -333,6 +331,13 @@ def gen_allow(rng):
 
 def gen_url(rng, h, o):
     """a remote spelling aimed at allow host h / org o"""
+    if rng.random() < 0.3:        # a regular spelling (mostly under the entry), so that the matching branch is well exercised
+        hh = case_mix(rng, h); oo = case_mix(rng, pick(rng, [o, o, o, o + '/team', o + 'x', 'other']))
+        repo = pick(rng, ['r', 'repo.git', 'r/', 'sub/r.git', 'R', 'r.git.git', 'r?x=1', 'r#main', ''])
+        k = rng.randrange(6)
+        u = ['https://%s/%s/%s', 'http://%s/%s/%s', 'ssh://git@%s/%s/%s', 'git@%s:%s/%s', 'ssh://%s/%s/%s', 'ssh://deploy@%s/%s/%s'][k] % (hh, oo, repo)
+        if rng.random() < 0.1: u = ' ' + u + pick(rng, [' ', '\n', '\t'])
+        return u
     host = pick(rng, [h, h, h, h, h + '.evil.com', 'evil' + h, 'evil.com', h.upper(), h.replace('k', '\u212a') if 'k' in h else h, 'x.' + h, h + '.',
                       h[:-1], h + 'x', '', '[::1]', h.replace('i', '\u0130', 1)])
     user = pick(rng, [None, None, None, 'git', 'user', 'user:pw', h, h + ':x', h + '/' + o, 'a@b', '', 'git@' + h])
@@ -560,10 +565,11 @@ def gen_config(rng, cat):
         for _ in range(rng.choice([1, 1, 2])):
             allow.append(pick(rng, ['%s/%s/' % (h, o), '%s/%s' % (h, o), 'https://%s/%s' % (h, o), h, ' ', '']))
     mods = []
+    clean = rng.random() < 0.45          # aim at a repository that lints clean
     for i in range(rng.choice([0, 1, 2, 3])):
         git = None
         if rng.random() < 0.75:
-            git = pick(rng, ['https://%s/%s/r%d.git' % (h, o, i), 'git@%s:%s/r%d.git' % (h, o, i), 'ssh://git@%s/%s/r%d' % (h, o, i),
+            git = pick(rng, ['https://%s/%s/r%d.git' % (h, o, i), 'git@%s:%s/r%d.git' % (h, o, i), 'ssh://git@%s/%s/r%d' % (h, o, i)]) if clean else pick(rng, ['https://%s/%s/r%d.git' % (h, o, i), 'git@%s:%s/r%d.git' % (h, o, i), 'ssh://git@%s/%s/r%d' % (h, o, i),
                              'https://evil.com/%s/r' % o, 'ssh://evil.com/x@%s/%s/r' % (h, o), 'https://%s/%s/../other/r' % (h, o),
                              'https://%s@evil.com/%s/r' % (h, o), 'https://%s.evil.com/%s/r' % (h, o), 'https://%s/%sx/r' % (h, o),
                              'https://%s/%s/%%2e%%2e/other/r' % (h, o), 'https://%s:x@evil.test/%s/r.git' % (h, o)])
